@@ -815,6 +815,7 @@ type loopCtx struct {
 	targets  []modTarget
 	refined  bool
 	preTop   *Term
+	pre      *State // state just before the loop (for pre(e) in invariants)
 }
 
 // checkInvariants emits one obligation per invariant clause.
@@ -906,6 +907,7 @@ func (x *fnv) execFor(s *State, st *ast.ForStmt, label string) (out flows) {
 	}
 	x.activeLoops[ord] = lp
 	defer delete(x.activeLoops, ord)
+	lp.pre = s.Clone()
 	x.checkInvariants(s, lp, "init", st.Pos())
 	w := x.loopWrites(st.Body, st.Cond, st.Post)
 	head := s.Clone()
@@ -1007,6 +1009,7 @@ func (x *fnv) execRange(s *State, st *ast.RangeStmt, label string) (out flows) {
 		}
 		lp.role["$i"] = Value{T: it, Term: c.Int(0)}
 		lp.role["$len"] = Value{T: it, Term: n}
+		lp.pre = s.Clone()
 		x.checkInvariants(s, lp, "init", st.Pos())
 		head := s.Clone()
 		x.loopTargets(s, lp)
@@ -1105,6 +1108,7 @@ func (x *fnv) execRangeMap(s *State, st *ast.RangeStmt, label string, lp *loopCt
 	// seen sets are functions key -> bool; ref plays the role of the key
 	lp.seen = c.ConstMem(seenName, 1, c.False())
 	lp.role["$n"] = Value{T: it, Term: c.Int(0)}
+	lp.pre = s.Clone()
 	x.checkInvariants(s, lp, "init", st.Pos())
 
 	head := s.Clone()
